@@ -1,7 +1,7 @@
 From Coq Require Import List NArith ZArith Permutation Sorting.Sorted.
 Require mathcomp.algebra.mxalgebra mathcomp.algebra.matrix mathcomp.algebra.rat.
 Require SK.lib.RankBridge SK.proof.C17_Rank.
-From SK Require Import lib.IRSortKeys lib.C17_Farkas model.C17_Model proof.C17_Proof.
+From SK Require Import lib.IRSortKeys lib.C17_Farkas model.C17_Model proof.C17_Proof model.C17_NodeModel proof.C17_Nodes.
 Import ListNotations.
 
 (** (1) build_S: one row per species, one column per reaction. *)
@@ -129,3 +129,38 @@ Theorem C17_conservative_complete_refuted :
     conservative_verdict 2 (Num false false 0 false) = false.
 Proof. exists net_ABC, B_ABC. exact conservative_complete_refuted. Qed.
 Print Assumptions C17_conservative_complete_refuted.
+
+(** (12) Node identifiers never matter.  The code computes labels, index dictionaries and the matrices on a bipartite
+         graph whose nodes carry identifiers (integers 1..N+M of the hypergraph export, strings, anything a caller
+         chose): nodes are sorted by label, the row / column of a node is looked up BY IDENTIFIER, the matrices are
+         filled arc by arc (model/C17_NodeModel.v).  For every network and EVERY injective assignment of identifiers to
+         species and reactions this gives exactly the species labels, reaction labels, S_minus, S_plus and S of the
+         label-level model — so theorems (1)-(5) hold for it: row i belongs to label i whatever the identifiers look
+         like (two-digit, permuted, ordered differently as strings and as numbers). *)
+Theorem C17_S_node_ids : forall (ids idr : str -> N) (net : list rxn) (iso : list str),
+  (forall s s', In s (species_set net iso) -> In s' (species_set net iso) -> ids s = ids s' -> s = s') ->
+  (forall e e', In e net -> In e' net -> idr (rid e) = idr (rid e') -> rid e = rid e') ->
+  NoDup (map rid net) ->
+  let G := export ids idr net iso in
+  node_labels (bg_species G) = species_order net iso /\
+  node_labels (bg_rxns G) = map rrule (reaction_order net) /\
+  fill Reactant G = S_minus net iso /\
+  fill Product G = S_plus net iso /\
+  build_S_nodes G = build_S net iso.
+Proof. exact nodes_refine. Qed.
+Print Assumptions C17_S_node_ids.
+
+(** (13) The same for the form the correspondence evaluates on every case ([run_ids] computes these five slots on
+         [graph_of net iso sid rids], with the identifiers read off the graph the implementation really used). *)
+Theorem C17_S_node_ids_observed : forall (net : list rxn) (iso : list str) (sid rids : list N),
+  NoDup (map rid net) ->
+  NoDup sid -> length sid = length (species_set net iso) ->
+  NoDup rids -> length rids = length net ->
+  let G := graph_of net iso sid rids in
+  node_labels (bg_species G) = species_order net iso /\
+  node_labels (bg_rxns G) = map rrule (reaction_order net) /\
+  fill Reactant G = S_minus net iso /\
+  fill Product G = S_plus net iso /\
+  build_S_nodes G = build_S net iso.
+Proof. exact graph_of_refine. Qed.
+Print Assumptions C17_S_node_ids_observed.
